@@ -160,7 +160,13 @@ fn render_node(n: &Node, st: &Style, depth: usize, root: bool, parent_ns: &str, 
 pub fn render(root: &Node, st: &Style) -> String {
     let mut s = String::new();
     if st.decl {
-        s.push_str("<?xml version=\"1.0\" encoding=\"UTF-8\"?>");
+        // the declaration itself has several equivalent spellings: pick one by the other flags
+        s.push_str(match (st.attr, st.pad, st.cmt) {
+            (true, _, _) => "<?xml version='1.0' encoding='utf-8'?>",
+            (false, true, _) => "<?xml version=\"1.0\" ?>",
+            (false, false, true) => "<?xml version=\"1.0\" encoding=\"Utf-8\" standalone=\"yes\"?>",
+            _ => "<?xml version=\"1.0\" encoding=\"UTF-8\"?>",
+        });
         if st.ws {
             s.push('\n');
         }
